@@ -628,8 +628,11 @@ class C04(SimCheck):
             ref_case["cfg"]["maxIter"] = len(ex) + 12
             ref_case["drive"] = {"mode": "start"}
             if case.get("between"):
-                # an external controller acts between steps: the reference run is stepped as well
+                # an external controller acts between steps: the reference run is stepped as well and gets
+                # exactly the requests the controller issued in the bounded run (it stops acting when the
+                # simulation reports its end, which the unbounded run does later)
                 ref_case["drive"] = {"mode": "steps", "n": max(case["drive"].get("n", 0), len(ex) + 14)}
+                ref_case["between"] = copy.deepcopy(impl.get("between", []))
             ref = simimpl.run_impl(ref_case, None, draw_seed=case.get("seed", 0))
             rex = [ts for _, ts in afters(ref["trace"])]
             expected = []
